@@ -196,6 +196,36 @@ fn check_view(shared: &Shared, group_idx: usize, group: &Group, db: &DB, by_iter
     }
 }
 
+/// Reads without a snapshot, one per key of the group. Only sound while nothing can commit between
+/// the reads (the only writer is parked inside its write and every other writer queues behind it, or
+/// all writers have finished): each get then reads at the same published sequence number, so the
+/// reads form a sequence-consistent view and must show the whole batch or none of it.
+fn check_plain_gets(shared: &Shared, group_idx: usize, group: &Group, db: &DB, during: &str) {
+    let _g = watch::enter("view");
+    shared.views.lock().push((group_idx, shared.stamp()));
+    let mut tags = BTreeSet::new();
+    let mut seen: Vec<String> = vec![];
+    for k in &group.keys {
+        let tag = match db.get(ReadOptions { fill_cache: false, snapshot: None }, k) {
+            Ok(v) => tag_of(&v),
+            Err(RainDBError::KeyNotFound) => "∅".to_string(),
+            Err(_) => {
+                shared.errors.fetch_add(1, Ordering::Relaxed);
+                return;
+            }
+        };
+        seen.push(format!("{}={}", show(k), tag));
+        tags.insert(tag);
+    }
+    if tags.len() > 1 {
+        let mut mixed = shared.mixed.lock();
+        if mixed.len() < 4 {
+            mixed.push(json!({"group": group_idx, "view": "gets without a snapshot while nothing can commit", "when": during, "tags_seen": tags,
+                "keys": seen.into_iter().take(24).collect::<Vec<_>>()}));
+        }
+    }
+}
+
 fn open_db(out: &mut CaseOut, cfg: &Config) -> Option<Arc<DB>> {
     let fs = SimFs::from_image(&dbutil::root_image());
     let options = dbutil::options(fs.as_provider(), dbutil::DB_PATH, cfg);
@@ -212,7 +242,7 @@ fn open_db(out: &mut CaseOut, cfg: &Config) -> Option<Arc<DB>> {
 fn finish(out: &mut CaseOut, db: Arc<DB>, shared: &Shared, ctx: &serde_json::Value, scenario: &str) -> u64 {
     let mixed = std::mem::take(&mut *shared.mixed.lock());
     for m in mixed {
-        let how = if m["view"] == "iterator scan" { "iterator" } else { "snapshot-gets" };
+        let how = if m["view"] == "iterator scan" { "iterator" } else if m["view"] == "gets at one snapshot" { "snapshot-gets" } else { "plain-gets" };
         out.violate(format!("C06/partial-batch-visible/{how}/{scenario}"), json!({"ctx": ctx, "view": m}));
     }
     // views whose fixing stamp lies inside a batch of the same group
@@ -294,7 +324,8 @@ fn case_forced(out: &mut CaseOut, seed: u64, idx: u64) {
         for _ in 0..6 {
             for (gi, g) in groups.iter().enumerate() {
                 check_view(&shared, gi, g, &db, rng.chance(0.5), &format!("writer parked at {point}"));
-                views_during += 1;
+                check_plain_gets(&shared, gi, g, &db, &format!("writer parked at {point}"));
+                views_during += 2;
             }
         }
     }
@@ -306,6 +337,7 @@ fn case_forced(out: &mut CaseOut, seed: u64, idx: u64) {
     for (gi, g) in groups.iter().enumerate() {
         check_view(&shared, gi, g, &db, false, "after release");
         check_view(&shared, gi, g, &db, true, "after release");
+        check_plain_gets(&shared, gi, g, &db, "after release");
     }
     let ctx = json!({"scenario": "writer parked inside its write", "point": point, "insert_index": nth, "batch_keys": n, "batch_is_delete": delete,
         "followers_queued": with_followers, "config": cfg.describe(), "writer_reached_point": arrived, "views_while_parked": views_during});
